@@ -68,7 +68,7 @@ func NewTr(seed int64, k Knobs) *Tr {
 	return t
 }
 
-var CommentTexts = []string{"plain", "x := y{", "} else {", "\"quoted\" `back` 'c'", "日本語 ünï", "multi\nline", "trailing newline\n", "a\n\nb }\n) ]", "if x { return }", "\\ backslash \\n", "func() {", "tab\there", "\nleading newline", "", " ", "/ slash", "* star", "x // y", "x /* y", "\n", "a\n", "100% sure %d"}
+var CommentTexts = []string{"plain", "x := y{", "} else {", "\"quoted\" `back` 'c'", "日本語 ünï", "multi\nline", "trailing newline\n", "a\n\nb }\n) ]", "if x { return }", "\\ backslash \\n", "func() {", "tab\there", "\nleading newline", "", " ", "/ slash", "* star", "x // y", "x /* y", "\n", "a\n", "100% sure %d", " /* TODO", "  // a\nb := c", "\t//x", " ", "  leading spaces"}
 
 // cmt injects comments as own items and at the end of items (hosts: Block, Defs, Struct, Interface, case bodies, File).
 func (t *Tr) cmt(items []jen.Code) []jen.Code { return t.cmt2(items, true) }
@@ -85,6 +85,9 @@ func (t *Tr) cmt2(items []jen.Code, endOK bool) []jen.Code {
 		marker := fmt.Sprintf("CM%dQ", t.ncomments)
 		if strings.HasPrefix(body, "\n") {
 			return "\n" + marker + " " + body[1:] // keep the leading newline leading
+		}
+		if strings.HasPrefix(body, " ") || strings.HasPrefix(body, "\t") {
+			return body + " " + marker // keep leading white space leading
 		}
 		return marker + " " + body
 	}
